@@ -198,6 +198,11 @@ def build_job(op, env):
             pre.append(U.PreT(k=1, h=U.Holder(o=up)))
         elif via == "init":
             init.append(U.InitT(k=1, h=U.Holder(dt={"k": up})))
+        elif via == "pre-on-oin":
+            # a pre-task attached to the task-output configuration that is given as parameter `oin`
+            kw["oin"].add_pretasks(U.PreT(k=2, h=U.Holder(t=up)))
+        elif via == "pre-o-on-oin":
+            kw["oin"].add_pretasks(U.PreT(k=2, h=U.Holder(o=up)))
         elif via == "explicit":
             explicit.append(env["jobs"][dep])
         else:
